@@ -4838,7 +4838,9 @@ namespace awkward {
     else {
       const std::vector<ssize_t> shape(std::next(shape_.begin()), shape_.end());
       const std::vector<ssize_t> strides(std::next(strides_.begin()), strides_.end());
-      builder.beginlist();
+      if (include_beginendlist) {
+        builder.beginlist();
+      }
       for (int64_t i = 0;  i < length();  i++) {
         ssize_t byteoffset = byteoffset_ + strides_[0]*((ssize_t)i);
         NumpyArray numpy(Identities::none(),
@@ -4853,7 +4855,9 @@ namespace awkward {
                          ptr_lib_);
         numpy.tojson_boolean(builder, true);
       }
-      builder.endlist();
+      if (include_beginendlist) {
+        builder.endlist();
+      }
     }
   }
 
@@ -4881,7 +4885,9 @@ namespace awkward {
     else {
       const std::vector<ssize_t> shape(std::next(shape_.begin()), shape_.end());
       const std::vector<ssize_t> strides(std::next(strides_.begin()), strides_.end());
-      builder.beginlist();
+      if (include_beginendlist) {
+        builder.beginlist();
+      }
       for (int64_t i = 0;  i < length();  i++) {
         ssize_t byteoffset = byteoffset_ + strides_[0]*((ssize_t)i);
         NumpyArray numpy(Identities::none(),
@@ -4896,7 +4902,9 @@ namespace awkward {
                          ptr_lib_);
         numpy.tojson_integer<T>(builder, true);
       }
-      builder.endlist();
+      if (include_beginendlist) {
+        builder.endlist();
+      }
     }
   }
 
@@ -4924,7 +4932,9 @@ namespace awkward {
     else {
       const std::vector<ssize_t> shape(std::next(shape_.begin()), shape_.end());
       const std::vector<ssize_t> strides(std::next(strides_.begin()), strides_.end());
-      builder.beginlist();
+      if (include_beginendlist) {
+        builder.beginlist();
+      }
       for (int64_t i = 0;  i < length();  i++) {
         ssize_t byteoffset = byteoffset_ + strides_[0]*((ssize_t)i);
         NumpyArray numpy(Identities::none(),
@@ -4939,7 +4949,9 @@ namespace awkward {
                          ptr_lib_);
         numpy.tojson_real<T>(builder, true);
       }
-      builder.endlist();
+      if (include_beginendlist) {
+        builder.endlist();
+      }
     }
   }
 
@@ -4967,7 +4979,9 @@ namespace awkward {
     else {
       const std::vector<ssize_t> shape(std::next(shape_.begin()), shape_.end());
       const std::vector<ssize_t> strides(std::next(strides_.begin()), strides_.end());
-      builder.beginlist();
+      if (include_beginendlist) {
+        builder.beginlist();
+      }
       for (int64_t i = 0;  i < length();  i++) {
         ssize_t byteoffset = byteoffset_ + strides_[0]*((ssize_t)i);
         NumpyArray numpy(Identities::none(),
@@ -4982,7 +4996,9 @@ namespace awkward {
                          ptr_lib_);
         numpy.tojson_complex<T>(builder, true);
       }
-      builder.endlist();
+      if (include_beginendlist) {
+        builder.endlist();
+      }
     }
   }
 
@@ -5000,7 +5016,9 @@ namespace awkward {
     else {
       const std::vector<ssize_t> shape(std::next(shape_.begin()), shape_.end());
       const std::vector<ssize_t> strides(std::next(strides_.begin()), strides_.end());
-      builder.beginlist();
+      if (include_beginendlist) {
+        builder.beginlist();
+      }
       for (int64_t i = 0;  i < length();  i++) {
         ssize_t byteoffset = byteoffset_ + strides_[0]*((ssize_t)i);
         NumpyArray numpy(Identities::none(),
@@ -5015,7 +5033,9 @@ namespace awkward {
                          ptr_lib_);
         numpy.tojson_string(builder, true);
       }
-      builder.endlist();
+      if (include_beginendlist) {
+        builder.endlist();
+      }
     }
   }
 
